@@ -1,6 +1,9 @@
 mod ast;
 mod engine_a;
+mod engine_b;
+mod engine_b6;
 mod engine_c;
+mod engine_d;
 mod refmodel;
 mod report;
 mod universe;
@@ -101,11 +104,83 @@ fn part_a(prop: &str, tier: &str, sink: &Sink, ev: &mut Evidence) {
     }
 }
 
+fn part_b(prop: &str, tier: &str, sink: &Sink, ev: &mut Evidence) {
+    let out = match prop {
+        "C05" => engine_b::run_c05(tier, sink),
+        "C12" => engine_b::run_c12(tier, sink),
+        "C17" => engine_b::run_c17(tier, sink),
+        "C13" => {
+            let e = engine_a::EngA::new(tier);
+            engine_b::run_c13_strings(tier, sink, &e.u)
+        }
+        _ => return,
+    };
+    let strings = out.counters.get("strings").copied().unwrap_or(0) + out.counters.get("built_field_combinations").copied().unwrap_or(0);
+    ev.evaluations += strings;
+    let nontrivial = match prop {
+        "C05" => out.counters.get("accepted").copied().unwrap_or(0) + out.counters.get("rejected_within_one_edit_of_an_accepted_seed").copied().unwrap_or(0),
+        "C12" => out.counters.get("accepted").copied().unwrap_or(0) + out.counters.get("built_field_combinations").copied().unwrap_or(0),
+        "C17" => out.counters.get("rejected").copied().unwrap_or(0),
+        _ => out.counters.get("distinct_range_values").copied().unwrap_or(0),
+    };
+    ev.distinct_nontrivial += nontrivial;
+    if ev.level == "model_checking" {
+        ev.states = Some(ev.states.unwrap_or(0) + out.counters.get("distinct_range_values").copied().unwrap_or(0));
+        ev.transitions = Some(ev.transitions.unwrap_or(0) + strings);
+        ev.traces_validated = Some(ev.traces_validated.unwrap_or(0) + strings);
+    }
+    ev.samples.extend(out.samples.clone());
+    ev.extra.insert("engine_b".into(), json!({"max_length_in_symbols": out.n, "version_alphabet": engine_b::SIGMA_V, "range_alphabet": engine_b::SIGMA_R, "counters": out.counters}));
+    if !ev.rule.is_empty() {
+        ev.rule.push_str(" || ");
+    }
+    ev.rule.push_str("Engine B: every string over the token-class alphabet up to the stated length (complete input tree of the parser to that depth), every single edit (and for the shortest seeds every pair of edits) of the canonical seeds over an extended symbol set incl. multi-byte characters, and the length / integer limit families; non-trivial = accepted strings (C05/C12), rejected strings (C17), distinct parsed values (C13)");
+}
+
+fn part_d(prop: &str, tier: &str, sink: &Sink, ev: &mut Evidence) {
+    let out = match prop {
+        "C04" => engine_d::run_c04(tier, sink),
+        "C14" => engine_d::run_c14(tier, sink),
+        "C16" => engine_d::run_c16(tier, sink),
+        _ => engine_d::run_c18(tier, sink),
+    };
+    let c = &out.counters;
+    let g = |k: &str| c.get(k).copied().unwrap_or(0);
+    match prop {
+        "C04" => {
+            ev.evaluations += g("ordered_pairs") + g("triples") + g("lists");
+            ev.distinct_nontrivial += g("triples_with_three_distinct_classes");
+        }
+        "C14" => {
+            ev.evaluations += g("evaluations");
+            ev.distinct_nontrivial += g("nontrivial");
+        }
+        "C16" => {
+            ev.evaluations += g("ordered_pairs");
+            ev.distinct_nontrivial += g("nontrivial");
+        }
+        _ => {
+            ev.evaluations += g("triples") + g("quadruples");
+            ev.distinct_nontrivial += g("triples") + g("quadruples");
+        }
+    }
+    ev.samples.extend(out.samples.clone());
+    ev.extra.insert("engine_d".into(), json!({"counters": out.counters}));
+    for (k, v) in &out.extra {
+        ev.extra.insert(k.clone(), v.clone());
+    }
+    ev.rule.push_str(&out.rule);
+    ev.assumptions.push(ASSUME_SMALL.to_string());
+}
+
 fn replay_dispatch(prop: &str, case: &Value) -> Vec<(String, String, String, String)> {
     let sink = Sink::new(prop, "replay");
     match case["engine"].as_str().unwrap_or("") {
         "C" => engine_c::replay(prop, case, &sink),
         "A" => engine_a::replay(prop, case, &sink),
+        "B" => engine_b::replay(prop, case, &sink),
+        "B6" => engine_b6::replay(case, &sink),
+        "D" => engine_d::replay(prop, case, &sink),
         other => eprintln!("replay: unknown engine {:?}", other),
     }
     sink.take()
@@ -123,11 +198,29 @@ fn run_check(prop: &str, tier: &str) -> i32 {
     match prop {
         "C07" | "C08" | "C09" | "C10" | "C15" => part_c(prop, tier, &sink, &mut ev),
         "C01" | "C02" => part_a(prop, tier, &sink, &mut ev),
-        "C03" | "C11" | "C13" => {
+        "C03" | "C11" => {
             part_c(prop, tier, &sink, &mut ev);
             part_a(prop, tier, &sink, &mut ev);
         }
-        "C06" => part_c(prop, tier, &sink, &mut ev),
+        "C13" => {
+            part_c(prop, tier, &sink, &mut ev);
+            part_a(prop, tier, &sink, &mut ev);
+            part_b(prop, tier, &sink, &mut ev);
+        }
+        "C05" | "C12" | "C17" => part_b(prop, tier, &sink, &mut ev),
+        "C04" | "C14" | "C16" | "C18" => part_d(prop, tier, &sink, &mut ev),
+        "C06" => {
+            part_c(prop, tier, &sink, &mut ev);
+            let out = engine_b6::run_c06(tier, &sink);
+            ev.evaluations += out.counters.get("operations_run_under_catch_unwind").copied().unwrap_or(0);
+            ev.distinct_nontrivial += out.counters.get("distinct_ranges_reached").copied().unwrap_or(0) + out.counters.get("distinct_versions_collected").copied().unwrap_or(0);
+            ev.samples.extend(out.samples.clone());
+            ev.extra.insert("engine_b_c06".into(), json!({"counters": out.counters, "version_alphabet": engine_b::SIGMA_V, "range_alphabet": engine_b::SIGMA_R,
+                "max_length_in_symbols": {"version": engine_b::n_for(tier, 'v'), "range": engine_b::n_for(tier, 'r')}, "watchdog_s": 20}));
+            ev.extra.insert("growth_measurement".into(), out.growth);
+            ev.rule.push_str(" || C06 monitor: every string of both input trees to the stated depth is parsed by both parsers under catch_unwind in a build with overflow checks and debug assertions; every accessor / diagnostic of every error and every unary operation of every value is run; every binary operation runs on every ordered pair of distinct reached ranges / versions; plus edit, limit, multi-line, multi-byte and 64 KiB families; a watchdog turns a case that does not return within 20 s into a violation; non-trivial = distinct values reached. The 'roughly linear time' clause is a labelled measurement (growth_measurement), not part of the exhaustive claim");
+            ev.assumptions.push("the 'time roughly linear' clause of C06 cannot be decided by enumeration; it is covered by a measurement that alarms only at T(64KiB) > 512 x T(1KiB)".into());
+        }
         _ => {
             eprintln!("unknown property {}", prop);
             return 2;
@@ -178,6 +271,15 @@ fn main() {
     }
     if args[0] == "fixture-input" {
         println!("{}", serde_json::to_string(&engine_a::fixture_input()).unwrap());
+        return;
+    }
+    if args[0] == "fixture-versions" {
+        let u = match args.get(1).map(|s| s.as_str()) {
+            Some("c04-quick") => engine_d::c04_universe("quick"),
+            Some("c04-thorough") => engine_d::c04_universe("thorough"),
+            _ => engine_d::c16_universe(),
+        };
+        println!("{}", serde_json::to_string(&json!({"versions": engine_d::universe_texts(&u)})).unwrap());
         return;
     }
     if args[0] == "oracle-crosscheck" {
